@@ -293,8 +293,32 @@ def tables_for(rows):
     return ftab, dtab, dstr
 
 
+def exotic_timestamps(rows):
+    """H_dt_uniform: the timestamps of one column that parse one by one form one datetime64 column.  It
+    holds for zone-free timestamps of at most microsecond precision within the nanosecond range; a grid
+    holding any other parseable timestamp is outside the model's domain (the oracle still judges it)."""
+    import pandas as pd
+
+    for r in rows:
+        for c in r:
+            if isinstance(c, str) and c.strip()[:1].isdigit():
+                try:
+                    with warnings.catch_warnings():
+                        warnings.simplefilter("ignore")
+                        t = pd.to_datetime(c.strip())
+                except Exception:
+                    continue
+                if t is pd.NaT:
+                    continue
+                if t.tzinfo is not None or t.nanosecond != 0 or not (1678 <= t.year <= 2261):
+                    return True
+    return False
+
+
 def case_to_coq(case, obs):
     rows = case["rows"]
+    if exotic_timestamps(rows):
+        return None
     ftab, dtab, dstr = tables_for(rows)
     fx = case.get("fixer", "strict")
     if fx in ("strict_class", "lenient_class", "none"):
